@@ -110,6 +110,18 @@ def setup(ctx):
     import numpy as np
 
     np.seterr(all="ignore")
+    # every case removes its own directory; only a SIGKILLed worker (hard shard
+    # timeout) can leave one behind -- sweep such leftovers (> 2 h old) here
+    import time
+
+    base = tempfile.gettempdir()
+    try:
+        for name in os.listdir(base):
+            p = os.path.join(base, name)
+            if name.startswith("vc23-") and time.time() - os.path.getmtime(p) > 7200:
+                shutil.rmtree(p, ignore_errors=True)
+    except OSError:
+        pass
 
 
 # ---------------------------------------------------------------------------
